@@ -1,2 +1,87 @@
-(** Property C01 (placeholder until the proofs land): statements only. *)
-From PS Require Import Gram.Cfg.
+(** Property C01: a depth-bounded grammar denotes exactly the well-typed
+    programs of its DSL.  Statements only; the model is Gram/Cfg.v, the
+    independent typing judgement [wt] and the relations [Uses], [Reach] are in
+    Gram/CfgSpec.v, the proofs in Gram/CfgProofs.v.  All statements quantify
+    over every input record [P] (DSL, forbidden table, type request, depth
+    bound, minimum variable depth, n-gram width, constant types) and every
+    program; nothing is bounded. *)
+From Coq Require Import NArith List Bool.
+From PS Require Import Base.Ty Base.Prog Gram.Cfg Gram.CfgSpec Gram.CfgProofs.
+Import ListNotations.
+
+(** Membership in the cleaned grammar is the typing judgement: requested return
+    type, arguments typed through ends_with (full applications only), nesting
+    depth below the bound, variables and constants at depth >= min_var,
+    constants at declared types only, no forbidden (parent, index, child)
+    whatever the arity of the child.  Needs n_gram >= 2 (with n_gram = 1 the
+    parent is truncated out of the context). *)
+Theorem C01_language : forall P, 2 <= n_gram P ->
+  forall p, contains P p = wt P (returns (request P)) None 0 p.
+Proof. exact contains_is_typed. Qed.
+Print Assumptions C01_language.
+
+(** The hypothesis on the width is necessary: with n_gram = 1 some grammar
+    accepts a term that is not typed (a forbidden pattern). *)
+Theorem C01_ngram1_refuted :
+  exists P p, n_gram P = 1 /\ contains P p = true /\ wt P (returns (request P)) None 0 p = false.
+Proof. exact ngram1_refuted. Qed.
+Print Assumptions C01_ngram1_refuted.
+
+(** The code's extra guard on variables used as functions (the variable's type
+    has at least one argument) is implied by the non-empty ends_with answer
+    that [wt] asks for. *)
+Theorem C01_var_head_guard : forall tv t a r, ends_with tv t = Some (a :: r) -> arguments tv <> [].
+Proof. exact ends_with_cons_arguments. Qed.
+Print Assumptions C01_var_head_guard.
+
+(** Members that are normal (no application node with an empty argument
+    list) have Program.depth at most the bound. *)
+Theorem C01_depth : forall P p, contains P p = true -> normal p = true -> pdepth p <= max_depth P.
+Proof. exact member_depth. Qed.
+Print Assumptions C01_depth.
+
+(** From width 2 on, the n-gram width does not change the language. *)
+Theorem C01_ngram_irrelevant : forall P P',
+  2 <= n_gram P -> 2 <= n_gram P' ->
+  dsl P' = dsl P -> forbidden P' = forbidden P -> request P' = request P ->
+  max_depth P' = max_depth P -> min_var P' = min_var P -> const_types P' = const_types P ->
+  forall p, contains P' p = contains P p.
+Proof. exact ngram_irrelevant. Qed.
+Print Assumptions C01_ngram_irrelevant.
+
+(** programs() is the length of the enumeration [lang] ... *)
+Theorem C01_count : forall P, programs P = N.of_nat (length (lang P)).
+Proof. exact programs_is_length. Qed.
+Print Assumptions C01_count.
+
+(** ... which has no repetition when no primitive is declared twice ... *)
+Theorem C01_count_nodup : forall P, wf_params P = true -> NoDup (lang P).
+Proof. exact lang_NoDup. Qed.
+Print Assumptions C01_count_nodup.
+
+(** ... and consists exactly of the normal members.  (Membership also accepts
+    Function(f, []) whenever it accepts f; such a node is not normal and is the
+    only difference between "accepted" and "enumerated".) *)
+Theorem C01_count_members : forall P p, In p (lang P) <-> contains P p = true /\ normal p = true.
+Proof. exact lang_spec. Qed.
+Print Assumptions C01_count_members.
+
+(** Every rule of every non-terminal listed by [reachable] is applied, at that
+    non-terminal, in the derivation of some program of the language. *)
+Theorem C01_rules_useful : forall P x r,
+  In x (reachable P) -> In r (crules P x) ->
+  exists p, In p (lang P) /\ Uses (crules P) (start P) p x r.
+Proof. exact rules_useful. Qed.
+Print Assumptions C01_rules_useful.
+
+(** [reachable] lists exactly the non-terminals connected to the start symbol
+    by rules of the cleaned grammar. *)
+Theorem C01_reachable : forall P x, In x (reachable P) <-> Reach P x.
+Proof. exact reachable_iff_reach. Qed.
+Print Assumptions C01_reachable.
+
+(** The productivity test used by clean means "has a member". *)
+Theorem C01_productive : forall P x,
+  productive (fuel_of P) P x = true <-> exists q, contains_at P x q = true.
+Proof. exact productive_iff_member. Qed.
+Print Assumptions C01_productive.
